@@ -2,7 +2,8 @@
 import re
 
 from .. import lib, mir
-from ..mir import render, strip_generics
+from .. import lib_proto as P
+from ..mir import strip_generics
 
 EXPLANATION = ("Registrations::add: every continuation past the TTL test has min_ttl <= effective_ttl <= max_ttl (Err(InvalidTtl) on the other edges) "
                "and stores / schedules exactly that ttl; the only registrations_for_peer.insert is dominated, for each of the two limits, by "
@@ -20,11 +21,14 @@ ASSUMPTIONS = ["bimap::BiHashMap / hashlink::LruCache semantics (BiHashMap::inse
                "the model comparison over arbitrary histories is not performed; only the per-operation update rules are decided"]
 RZ = "libp2p_rendezvous"
 R = r"^libp2p_rendezvous::server::Registrations::"
+RADT = r"^libp2p_rendezvous::server::Registrations$"
+CADT = r"^libp2p_rendezvous::codec::Cookie$"
 
 SELFTEST = [
     {"mutation": "total limit `>` (the tree before the F14 fix 1cf5901)", "caught_by": "add/total limit is strict (or refresh)"},
     {"mutation": "no refresh test before Err(Unavailable) (the tree before the F14 fix) / `(is_refresh || !is_refresh) &&`", "caught_by": "add/Unavailable only for a new (peer, namespace)"},
     {"mutation": "superseded id not removed from `registrations` (the tree before the F14 fix) / `let _ = superseded`", "caught_by": "add/superseded registration is dropped before the key is overwritten"},
+    {"mutation": "seeded/C51: TTL bounds applied only to an explicit `new_registration.ttl`, the stored ttl is effective_ttl()", "caught_by": "add/ttl within [min_ttl, max_ttl]"},
     {"mutation": "`ttl >= max_ttl` rejects max_ttl", "caught_by": "add/ttl within [min_ttl, max_ttl]"},
     {"mutation": "`ttl < min_ttl` test deleted", "caught_by": "add/ttl within [min_ttl, max_ttl]"},
     {"mutation": "per-peer limit `>`", "caught_by": "add/per-peer limit is strict (or refresh)"},
@@ -37,265 +41,286 @@ SELFTEST = [
 ]
 
 
-def ret_exprs(b):
-    return [(mir.Site(b, d[1], d[2]), b.site_expr(mir.Site(b, d[1], d[2]))) for d in b.defs.get(0, [])]
-
-
-def cmp_edges(b, lhs_pat, rhs_pat, want):
-    """Edges on which relation `want` in {'le','ge','lt','gt'} between lhs and rhs is known."""
-    table = {"le": {("Gt", "false"), ("Le", "true")}, "ge": {("Lt", "false"), ("Ge", "true")},
-             "lt": {("Ge", "false"), ("Lt", "true")}, "gt": {("Le", "false"), ("Gt", "true")}}[want]
-    return {(bi, tg) for bi, tg, op, lab in lib.cmp_guard(b, lhs_pat, rhs_pat, None) if (op, lab) in table}
-
-
-def truth_edges(b, pred, value):
-    """Edges on which the bool expression selected by pred(rendered) is known to be `value` (looks through `!`)."""
-    out = set()
-    for bi in b.live:
-        info = b.switch_info(bi)
-        if not info:
-            continue
-        cond, labs = info
-        neg = False
-        while cond[0] == "un" and cond[1] == "Not":
-            cond, neg = cond[2], not neg
-        if not pred(render(cond)):
-            continue
-        want = "true" if (value != neg) else "false"
-        for tg, ls in labs.items():
-            if ls == {want}:
-                out.add((bi, tg))
-    return out
-
-
 def check(ctx):
-    mir.RENDER_MAX[0] = 30
-    try:
-        _check(ctx, ctx.prog)
-    finally:
-        mir.RENDER_MAX[0] = 14
+    _check(ctx, ctx.prog)
 
 
 def _check(ctx, prog):
+    # ---- private fields by role
+    F_IDS = P.field_by_type(prog, RZ, RADT, r"^bimap::BiHashMap<")                       # (peer, namespace) <-> id
+    F_REGS = P.field_by_type(prog, RZ, RADT, r"^std::collections::HashMap<server::RegistrationId")
+    F_COOK = P.field_by_type(prog, RZ, RADT, r"LruCache<")
+    F_EXP = P.field_by_type(prog, RZ, RADT, r"FuturesUnordered<")
+    F_CFG = P.field_by_type(prog, RZ, RADT, r"Config$")
+    IDS, REGS, COOK, EXP, CFG = ("self." + x for x in (F_IDS, F_REGS, F_COOK, F_EXP, F_CFG))
+    C_MIN = CFG + "." + P.field_written_by(prog, RZ, r"^libp2p_rendezvous::server::Config::with_min_ttl$")
+    C_MAX = CFG + "." + P.field_written_by(prog, RZ, r"^libp2p_rendezvous::server::Config::with_max_ttl$")
+    C_PEER = CFG + "." + P.field_written_by(prog, RZ, r"^libp2p_rendezvous::server::Config::with_max_registration_per_peer$")
+    C_TOTAL = CFG + "." + P.field_written_by(prog, RZ, r"^libp2p_rendezvous::server::Config::with_max_registration_total$")
+    # ================================================================= add(self, new_registration = $2)
     a = ctx.body(RZ, R + r"add$")
+    A = P.Norm(a)
     arets = a.return_blocks()
-    TTL = "libp2p_rendezvous::codec::NewRegistration::effective_ttl(new_registration)"
-    bins = [s for s in a.call_sites(r"BiHashMap::insert$") if render(a.site_expr(s)[2][0]) == "self.registrations_for_peer"]
-    rins = [s for s in a.call_sites(r"HashMap::insert$") if render(a.site_expr(s)[2][0]) == "self.registrations"]
-    tpush = [s for s in a.call_sites(r"FuturesUnordered::push$") if render(a.site_expr(s)[2][0]) == "self.next_expiry"]
-    ctx.floor("add", "registrations_for_peer.insert", bins, 1, exact=True)
-    ctx.floor("add", "registrations.insert", rins, 1, exact=True)
+    bins = [s for s in a.call_sites(r"BiHashMap::insert$") if A.r(a.site_expr(s)[2][0]) == IDS]
+    rins = [s for s in a.call_sites(r"HashMap::insert$") if A.r(a.site_expr(s)[2][0]) == REGS]
+    tpush = [s for s in a.call_sites(r"FuturesUnordered::push$") if A.r(a.site_expr(s)[2][0]) == EXP]
+    ctx.floor("add", "(peer, namespace) -> id insert", bins, 1, exact=True)
+    ctx.floor("add", "id -> registration insert", rins, 1, exact=True)
     ctx.floor("add", "expiry timer push", tpush, 1, exact=True)
-    res = ret_exprs(a)
+    res = P.ret_exprs(a)
     oks = [(s, e) for s, e in res if e[0] == "agg" and e[3] == "Ok"]
-    unav = [(s, e) for s, e in res if render(e) == "std::result::Result::Err{0: libp2p_rendezvous::codec::ErrorCode::Unavailable{}}"]
-    inval = [(s, e) for s, e in res if render(e) == "std::result::Result::Err{0: libp2p_rendezvous::codec::ErrorCode::InvalidTtl{}}"]
-    ctx.ob("add", "floor:result kinds", len(oks) == 1 and len(unav) >= 1 and len(inval) >= 1 and len(oks) + len(unav) + len(inval) == len(res), nontrivial=False, msg=str([render(e)[:60] for _, e in res]))
-    # ---- TTL
-    le_max = cmp_edges(a, "^" + re.escape(TTL) + "$", r"^self\.config\.max_ttl$", "le")
-    ge_min = cmp_edges(a, "^" + re.escape(TTL) + "$", r"^self\.config\.min_ttl$", "ge")
-    gt_max = cmp_edges(a, "^" + re.escape(TTL) + "$", r"^self\.config\.max_ttl$", "gt")
-    lt_min = cmp_edges(a, "^" + re.escape(TTL) + "$", r"^self\.config\.min_ttl$", "lt")
-    for s in bins + rins + tpush + [x for x, _ in oks]:
-        nm = "Ok" if s.si is not None else strip_generics(a.call_name(s.term)).split("::")[-1] + "(" + render(a.site_expr(s)[2][0]).split(".")[-1] + ")"
-        ok = bool(le_max) and bool(ge_min) and a.must_pass_edges(s.bb, le_max) and a.must_pass_edges(s.bb, ge_min)
-        ctx.ob("add", "ttl within [min_ttl, max_ttl]", ok, s.loc(), "%s is reachable only with min_ttl <= ttl <= max_ttl" % nm if ok else "%s reachable with a ttl outside [min_ttl, max_ttl] (or a boundary value is rejected by a non-inclusive test)" % nm)
-    for edges, nm in ((gt_max, "ttl > max_ttl"), (lt_min, "ttl < min_ttl")):
-        got = lib.count_range(a, [t for _, t in edges], arets, [s.bb for s, _ in inval]) if edges else None
-        eff = [s for s in bins + rins + tpush if edges and s.bb in a.reachable([t for _, t in edges])]
-        ctx.ob("add", "%s is refused with InvalidTtl and stores nothing" % nm, got == (1, 1) and not eff, inval[0][0].loc() if inval else "", "Err(InvalidTtl) on that edge: %s, stores reachable: %d" % (got, len(eff)))
+    unav = [(s, e) for s, e in res if A.r(e) == "std::result::Result::Err{0: libp2p_rendezvous::codec::ErrorCode::Unavailable{}}"]
+    inval = [(s, e) for s, e in res if A.r(e) == "std::result::Result::Err{0: libp2p_rendezvous::codec::ErrorCode::InvalidTtl{}}"]
+    ctx.ob("add", "floor:result kinds", len(oks) == 1 and len(unav) >= 1 and len(inval) >= 1 and len(oks) + len(unav) + len(inval) == len(res), nontrivial=False, msg=str([A.r(e)[:60] for _, e in res]))
+    # ---- TTL: the ttl that is stored / returned
+    TTL = None
     for s, e in oks:
-        r = render(e)
-        ctx.ob("add", "the stored / returned registration carries the checked ttl", "ttl: %s}" % TTL in r and all("ttl: %s}" % TTL in render(a.site_expr(x)) for x in rins), s.loc(), r[-120:])
+        reg = dict(e[4])["0"]
+        if reg[0] == "agg" and "ttl" in dict(reg[4]):
+            TTL = A.r(dict(reg[4])["ttl"])
+    ctx.ob("add", "floor:stored ttl", TTL is not None, nontrivial=False, msg=str(TTL))
+    le_max = P.rel_edges(a, lambda op, x, y: op == "Le" and A.r(x) == TTL and A.r(y) == C_MAX)
+    ge_min = P.rel_edges(a, lambda op, x, y: op == "Le" and A.r(x) == C_MIN and A.r(y) == TTL)
+    gt_max = P.rel_edges(a, lambda op, x, y: op == "Lt" and A.r(x) == C_MAX and A.r(y) == TTL)
+    lt_min = P.rel_edges(a, lambda op, x, y: op == "Lt" and A.r(x) == TTL and A.r(y) == C_MIN)
+    names = {id(s): n for lst, n in ((bins, "insert(key -> id)"), (rins, "insert(id -> registration)"), (tpush, "timer push")) for s in lst}
+    for s in bins + rins + tpush + [x for x, _ in oks]:
+        nm = names.get(id(s), "Ok")
+        ok = P.must_pass(a, s.bb, le_max) and P.must_pass(a, s.bb, ge_min)
+        ctx.ob("add", "ttl within [min_ttl, max_ttl]", ok, s.loc(), "%s is reachable only with min_ttl <= ttl <= max_ttl for the ttl that is stored" % nm if ok else
+               "%s reachable with a stored ttl outside [min_ttl, max_ttl] (the bounds are not tested on the stored value, or a boundary value is rejected by a non-inclusive test)" % nm)
+    for edges, nm in ((gt_max, "ttl > max_ttl"), (lt_min, "ttl < min_ttl")):
+        got = lib.count_range(a, P.targets(edges), arets, [s.bb for s, _ in inval]) if edges else None
+        eff = [s for s in bins + rins + tpush if edges and s.bb in a.reachable(P.targets(edges))]
+        ctx.ob("add", "%s is refused with InvalidTtl and stores nothing" % nm, got == (1, 1) and not eff, inval[0][0].loc() if inval else "", "Err(InvalidTtl) on that edge: %s, stores reachable: %d" % (got, len(eff)))
+    for s in rins:
+        v = a.site_expr(s)[2][2]
+        regs = [x for x in mir.walk(v) if x[0] == "agg" and x[1] == "adt" and strip_generics(x[2]).endswith("codec::Registration")]
+        ctx.ob("add", "the stored registration carries the checked ttl", len(regs) == 1 and A.r(dict(regs[0][4]).get("ttl", ("unknown", "?"))) == TTL, s.loc(), A.r(v)[-120:])
     for s in tpush:
-        r = render(a.site_expr(s))
+        r = A.site(s)
         ctx.ob("add", "expiry is scheduled after exactly ttl seconds", "futures_timer::Delay::new(std::time::Duration::from_secs(%s))" % TTL in r, s.loc(), r[:200])
     # ---- key / id agreement
-    KEY = render(a.site_expr(bins[0])[2][1]) if bins else "?"
-    ID = render(a.site_expr(bins[0])[2][2]) if bins else "?"
-    ctx.ob("add", "the key is (record.peer_id(), namespace)", KEY == "tuple{0: libp2p_core::PeerRecord::peer_id(new_registration.record), 1: libp2p_rendezvous::<codec::Namespace as std::clone::Clone>::clone(new_registration.namespace)}", bins[0].loc() if bins else "", KEY)
-    ctx.ob("add", "one fresh id is used for both maps and the timer", ID == "libp2p_rendezvous::server::RegistrationId::new()" and all(render(a.site_expr(x)[2][1]) == ID for x in rins) and
-           all("[%s]" % ID in render(a.site_expr(x)) for x in tpush) and len(a.call_sites(r"server::RegistrationId::new$")) == 1, bins[0].loc() if bins else "", ID)
-    tc = [c for c in prog.children(a) if c.kind == "closure" and [render(x) for _, x in ret_exprs(c)] == ["^registration_id"]]
-    ctx.ob("add", "the timer yields the registration's id", len(tc) == 1, msg="closure returning ^registration_id: %d" % len(tc))
+    KEY = A.r(a.site_expr(bins[0])[2][1]) if bins else "?"
+    IDE = a.site_expr(bins[0])[2][2] if bins else ("unknown", "?")
+    ID = A.r(IDE)
+    ctx.ob("add", "the key is (record.peer_id(), namespace)", KEY == "tuple{0: libp2p_core::PeerRecord::peer_id($2.record), 1: clone($2.namespace)}", bins[0].loc() if bins else "", KEY)
+    tim = [P.closures_in(prog, a, a.site_expr(x)) for x in tpush]
+    same_id = IDE[0] == "call" and all(y[0] == "call" and y[3] == IDE[3] for x in rins for y in [a.site_expr(x)[2][1]]) and \
+        all(len(cs) == 1 and len(cs[0][0][2]) == 1 and cs[0][0][2][0][0] == "call" and cs[0][0][2][0][3] == IDE[3] for cs in tim)
+    ctx.ob("add", "one fresh id is used for both maps and the timer", ID == "libp2p_rendezvous::server::RegistrationId::new()" and same_id and len(a.call_sites(r"server::RegistrationId::new$")) == 1, bins[0].loc() if bins else "", ID)
+    tc = [P.Norm(cs[0][1]).r(x) for cs in tim if cs for _, x in P.ret_exprs(cs[0][1])]
+    ctx.ob("add", "the timer yields the registration's id", tc == ["^0"], msg=str(tc))
     for s, e in oks:
-        for x in bins + rins + tpush:
-            got = lib.count_range(a, [0], [s.bb], [x.bb])
-            ctx.ob("add", "Ok => stored once in %s" % render(a.site_expr(x)[2][0]).split(".")[-1], got == (1, 1), x.loc(), str(got))
+        for x, nm in ((bins, "the key -> id map"), (rins, "the id -> registration map"), (tpush, "the expiry queue")):
+            got = lib.count_range(a, [0], [s.bb], lib.bbs(x))
+            ctx.ob("add", "Ok => stored once in %s" % nm, got == (1, 1), x[0].loc() if x else "", str(got))
     for s, e in unav + inval:
         got = lib.count_range(a, [0], [s.bb], lib.bbs(bins + rins + tpush))
         ctx.ob("add", "Err => nothing stored", got == (0, 0), s.loc(), str(got))
     # ---- limits + refresh rule
-    is_key_test = lambda r: r == "bimap::BiHashMap::contains_left(self.registrations_for_peer, %s)" % KEY
-    refresh = truth_edges(a, is_key_test, True)
-    fresh = truth_edges(a, is_key_test, False)
-    PEERCNT = r"^<std::iter::Filter as std::iter::Iterator>::count\(std::iter::Iterator::filter\(bimap::BiHashMap::left_values\(self\.registrations_for_peer\), closure:[^\[]*\[libp2p_core::PeerRecord::peer_id\(new_registration\.record\)\]\)\)$"
-    TOTAL = r"^bimap::BiHashMap::len\(self\.registrations_for_peer\)$"
+    is_key_test = (lambda e: A.r(e) == "bimap::BiHashMap::contains_left(%s, %s)" % (IDS, KEY))
+    refresh = P.truth_edges(a, is_key_test, True)
+    fresh = P.truth_edges(a, is_key_test, False)
+    cnt = [s for s in a.call_sites(r"Iterator>::count$|Iterator::count$") if IDS in A.site(s)]
+    PEERCNT = A.site(cnt[0]) if cnt else "?"
+    TOTAL = "bimap::BiHashMap::len(%s)" % IDS
     for s in bins:
-        for nm, cpat, lpat in (("per-peer", PEERCNT, r"^self\.config\.max_registrations_per_peer$"), ("total", TOTAL, r"^self\.config\.max_registrations_total$")):
-            good, weak = lib.strict_limit_edges(a, cpat, lpat)
+        for nm, cexp, lexp in (("per-peer", PEERCNT, C_PEER), ("total", TOTAL, C_TOTAL)):
+            good = P.rel_edges(a, lambda op, x, y: op == "Lt" and A.r(x) == cexp and A.r(y) == lexp)
+            weak = P.rel_edges(a, lambda op, x, y: op == "Le" and A.r(x) == cexp and A.r(y) == lexp)
             ok = bool(good) and a.must_pass_edges(s.bb, set(good) | set(refresh))
             msg = "every path to the insert is a refresh of the same key or passes `count < limit`"
             if not ok:
                 msg = "a new (peer, namespace) can be inserted without a strict %s guard" % nm
                 if weak and a.must_pass_edges(s.bb, set(good) | set(weak) | set(refresh)):
-                    msg += " — only `count > limit` protects it, which admits limit + 1"
+                    msg += " — only `count <= limit` protects it, which admits limit + 1"
             ctx.ob("add", "%s limit is strict (or refresh)" % nm, ok, s.loc(), msg)
     for s, e in unav:
-        ok = bool(fresh) and a.must_pass_edges(s.bb, fresh)
+        ok = P.must_pass(a, s.bb, fresh)
         ctx.ob("add", "Unavailable only for a new (peer, namespace)", ok, s.loc(),
                "Err(Unavailable) is reachable only when the key is not registered yet" if ok else
                "Err(Unavailable) is reachable without testing whether (peer, namespace) is already registered: a refresh at the limit is refused")
-    cl = [c for c in prog.children(a) if c.kind == "closure" and [render(x) for _, x in ret_exprs(c)] == ["std::cmp::impls::eq(arg2.0, ^peer)"]]
-    ctx.ob("add", "the per-peer count matches the registering peer", len(cl) == 1, msg="closure `p == &peer`: %d" % len(cl))
+    pc = []
+    for s in cnt[:1]:
+        for x, cb in P.closures_in(prog, a, a.site_expr(s))[:1]:
+            for _, y in P.ret_exprs(cb):
+                c = P.cmpnf(y)
+                pc.append("%s(%s)" % (c[0], ", ".join(sorted([P.rr(prog, cb, c[1]), P.rr(prog, cb, c[2])]))) if c else P.Norm(cb).r(y))
+    ctx.ob("add", "the per-peer count matches the registering peer", pc == ["Eq($2.0, libp2p_core::PeerRecord::peer_id($2.record))"], msg=str(pc))
     # ---- superseded registration removed before the overwrite
-    rbl = [s for s in a.call_sites(r"BiHashMap::remove_by_left$") if render(a.site_expr(s)) == "bimap::BiHashMap::remove_by_left(self.registrations_for_peer, %s)" % KEY]
+    rbl = [s for s in a.call_sites(r"BiHashMap::remove_by_left$") if A.site(s) == "bimap::BiHashMap::remove_by_left(%s, %s)" % (IDS, KEY)]
     viaremove = [s for s in a.call_sites(R + r"remove$")]
     ok = False
-    why = "registrations_for_peer.insert(key, id) overwrites an existing key: the superseded id must be taken (remove_by_left(key)) and removed from `registrations` first"
+    why = "the key -> id insert overwrites an existing key: the superseded id must be taken (remove_by_left(key)) and removed from the id -> registration map first"
     if rbl and bins:
-        some = [t for _, t in lib.switch_edges_on_site(a, rbl[0], {"Some"})]
-        rr = [s for s in a.call_sites(r"HashMap::remove$") if render(a.site_expr(s)) == "std::collections::HashMap::remove(self.registrations, %s@Some.0.1)" % render(a.site_expr(rbl[0]))]
+        some = P.targets(P.outcome_edges(a, P.is_call_at(rbl[0]), True))
+        rr_ = [s for s in a.call_sites(r"HashMap::remove$") if A.site(s) == "std::collections::HashMap::remove(%s, %s@+.1)" % (REGS, A.site(rbl[0]))]
         g1 = lib.count_range(a, [0], [bins[0].bb], [rbl[0].bb])
-        g2 = lib.count_range(a, some, [bins[0].bb], lib.bbs(rr)) if some else None
+        g2 = lib.count_range(a, some, [bins[0].bb], lib.bbs(rr_)) if some else None
         ok = g1 == (1, 1) and g2 == (1, 1)
-        why = "remove_by_left(key) before the insert: %s; registrations.remove(superseded) on its Some edge: %s" % (g1, g2)
+        why = "remove_by_left(key) before the insert: %s; removal of the superseded id from the id -> registration map on its Some edge: %s" % (g1, g2)
     elif viaremove and bins:
         g1 = lib.count_range(a, [0], [bins[0].bb], lib.bbs(viaremove))
         ok = g1 == (1, 1)
         why = "Registrations::remove(namespace, peer) before the insert: %s" % (g1,)
     ctx.ob("add", "superseded registration is dropped before the key is overwritten", ok, bins[0].loc() if bins else "", why)
-    # ================================================================= remove
+    # ================================================================= remove(self, namespace = $2, peer_id = $3)
     rm = ctx.body(RZ, R + r"remove$")
-    rbl = [s for s in rm.call_sites(r"BiHashMap::remove_by_left$") if render(rm.site_expr(s)) == "bimap::BiHashMap::remove_by_left(self.registrations_for_peer, tuple{0: peer_id, 1: namespace})"]
+    M = P.Norm(rm)
+    rbl = [s for s in rm.call_sites(r"BiHashMap::remove_by_left$") if M.site(s) == "bimap::BiHashMap::remove_by_left(%s, tuple{0: $3, 1: $2})" % IDS]
     ctx.floor("remove", "remove_by_left((peer, namespace))", rbl, 1, exact=True)
     for s in rbl:
-        some = [t for _, t in lib.switch_edges_on_site(rm, s, {"Some"})]
-        rr = [x for x in rm.call_sites(r"HashMap::remove$") if render(rm.site_expr(x)) == "std::collections::HashMap::remove(self.registrations, %s@Some.0.1)" % render(rm.site_expr(s))]
+        some = P.targets(P.outcome_edges(rm, P.is_call_at(s), True))
+        rr_ = [x for x in rm.call_sites(r"HashMap::remove$") if M.site(x) == "std::collections::HashMap::remove(%s, %s@+.1)" % (REGS, M.site(s))]
         g0 = lib.count_range(rm, [0], rm.return_blocks(), [s.bb])
-        g1 = lib.count_range(rm, some, rm.return_blocks(), lib.bbs(rr)) if some else None
-        ctx.ob("remove", "unregistering drops the id from both maps", g0 == (1, 1) and g1 == (1, 1), s.loc(), "remove_by_left %s; registrations.remove(id) on the Some edge %s" % (g0, g1))
+        g1 = lib.count_range(rm, some, rm.return_blocks(), lib.bbs(rr_)) if some else None
+        ctx.ob("remove", "unregistering drops the id from both maps", g0 == (1, 1) and g1 == (1, 1), s.loc(), "remove_by_left %s; removal of the id from the id -> registration map on the Some edge %s" % (g0, g1))
     # ================================================================= poll (expiry)
     p = ctx.body(RZ, R + r"poll$")
-    nx = [s for s in p.call_sites(r"StreamExt::poll_next_unpin$") if render(p.site_expr(s)[2][0]) == "self.next_expiry"]
-    ctx.floor("expiry", "next_expiry.poll_next_unpin", nx, 1, exact=True)
-    EXP = "std::option::Option::expect(%s@Ready.0, 'This stream should never finish because it is initialised with a pending future')" % render(p.site_expr(nx[0])) if nx else "?"
-    rbr = [s for s in p.call_sites(r"BiHashMap::remove_by_right$") if render(p.site_expr(s)) == "bimap::BiHashMap::remove_by_right(self.registrations_for_peer, %s)" % EXP]
-    rr = [s for s in p.call_sites(r"HashMap::remove$") if render(p.site_expr(s)) == "std::collections::HashMap::remove(self.registrations, %s)" % EXP]
-    ck = [s for s in p.call_sites(r"LruCache::retain$") if render(p.site_expr(s)[2][0]) == "self.cookies"]
-    ready = [t for _, t in lib.switch_edges_on_site(p, nx[0], {"Ready"})] if nx else []
+    PN = P.Norm(p)
+    nx = [s for s in p.call_sites(r"poll_next_unpin$|Stream>::poll_next$|Stream::poll_next$") if EXP in PN.r(p.site_expr(s)[2][0])]
+    ctx.floor("expiry", "next_expiry poll", nx, 1, exact=True)
+    EXPD = PN.site(nx[0]) + "@+@Ready" if nx else "?"
+    rbr = [s for s in p.call_sites(r"BiHashMap::remove_by_right$") if PN.site(s) == "bimap::BiHashMap::remove_by_right(%s, %s)" % (IDS, EXPD)]
+    rr_ = [s for s in p.call_sites(r"HashMap::remove$") if PN.site(s) == "std::collections::HashMap::remove(%s, %s)" % (REGS, EXPD)]
+    ck = [s for s in p.call_sites(r"LruCache::retain$") if PN.r(p.site_expr(s)[2][0]) == COOK]
+    ready = P.targets(P.variant_edges(p, P.is_call_at(nx[0]), {"Ready"})) if nx else []
     ends = p.return_blocks() + ([nx[0].bb] if nx else [])
-    g = [lib.count_range(p, ready, ends, lib.bbs(x)) if ready else None for x in (rbr, rr, ck)]
+    g = [lib.count_range(p, ready, ends, lib.bbs(x)) if ready else None for x in (rbr, rr_, ck)]
     ctx.ob("expiry", "expired id leaves both maps", g[0] == (1, 1) and g[1] == (1, 1), rbr[0].loc() if rbr else (nx[0].loc() if nx else ""),
-           "per expired id: registrations_for_peer.remove_by_right %s, registrations.remove %s (expected (1, 1) each)" % (g[0], g[1]))
+           "per expired id: key -> id remove_by_right %s, id -> registration remove %s (expected (1, 1) each)" % (g[0], g[1]))
     ctx.ob("expiry", "expired id leaves the cookies", g[2] == (1, 1), ck[0].loc() if ck else "", "cookies.retain per expired id: %s" % (g[2],))
     for s in ck:
-        c = lib.closure_of(prog, p, p.site_expr(s))
-        calls = [render(c.site_expr(x)) for x in c.call_sites(r"HashSet::remove$")] if c is not None else []
-        ctx.ob("expiry", "cookie cleanup removes the expired id", calls == ["std::collections::HashSet::remove(registrations, ^expired_registration)"], s.loc(), str(calls))
-    evs = [(s, e) for s, e in ret_exprs(p) if "ExpiredRegistration{" in render(e)]
+        cb, ups = P.upvar_sources(prog, p, p.site_expr(s))
+        calls = [P.Norm(cb).site(x) for x in cb.call_sites(r"HashSet::remove$")] if cb is not None else []
+        ctx.ob("expiry", "cookie cleanup removes the expired id", calls == ["std::collections::HashSet::remove($3, ^0)"] and [PN.r(u) for u in ups] == [EXPD], s.loc(), str(calls))
+    evs = [(s, e) for s, e in P.ret_exprs(p) if "ExpiredRegistration{" in PN.r(e)]
     ctx.floor("expiry", "ExpiredRegistration result", evs, 1, exact=True)
     for s, e in evs:
-        ok = bool(rr) and p.must_pass_edges(s.bb, lib.switch_edges_on_site(p, rr[0], {"Some"}))
-        ctx.ob("expiry", "an expiry event is emitted only for a registration that was still stored", ok and render(e) == "std::task::Poll::Ready{0: libp2p_rendezvous::server::ExpiredRegistration::ExpiredRegistration{0: %s@Some.0}}" % render(p.site_expr(rr[0])), s.loc(), render(e)[-80:])
-    # ================================================================= get
+        ok = bool(rr_) and P.must_pass(p, s.bb, P.outcome_edges(p, P.is_call_at(rr_[0]), True))
+        ctx.ob("expiry", "an expiry event is emitted only for a registration that was still stored", ok and PN.r(e) == "std::task::Poll::Ready{0: libp2p_rendezvous::server::ExpiredRegistration::ExpiredRegistration{0: %s@+}}" % PN.site(rr_[0]), s.loc(), PN.r(e)[-80:])
+    # ================================================================= get(self, discover_namespace = $2, cookie = $3, limit = $4)
     g_ = ctx.body(RZ, R + r"get$")
+    G = P.Norm(g_, ids=True)
     grets = g_.return_blocks()
-    fm = [s for s in g_.call_sites(r"Iterator::filter_map$") if render(g_.site_expr(s)[2][0]) == "bimap::BiHashMap::iter(self.registrations_for_peer)"]
-    ctx.floor("get", "filter_map over registrations_for_peer", fm, 1, exact=True)
-    fc = lib.closure_of(prog, g_, g_.site_expr(fm[0])) if fm else None
+    fm = [s for s in g_.call_sites(r"Iterator::filter_map$") if G.r(g_.site_expr(s)[2][0]) == "bimap::BiHashMap::iter(%s)" % IDS]
+    ctx.floor("get", "filter_map over the key -> id map", fm, 1, exact=True)
+    fc, ups = P.upvar_sources(prog, g_, g_.site_expr(fm[0])) if fm else (None, [])
     if fc is None:
         raise mir.RuleError("get: filter closure not found")
     ctx.use(fc)
-    ce = [x for x in mir.walk(g_.site_expr(fm[0])) if x[0] == "closure"][0]
-    ctx.ob("get", "the filter sees the cookie's id set and the requested namespace", [render(u) for u in ce[2]] == ["reggos_of_last_discover", "discover_namespace"], fm[0].loc(), str([render(u) for u in ce[2]]))
-    seen = truth_edges(fc, lambda r: r == "std::collections::HashSet::contains(^reggos_of_last_discover, arg2.1)", True)
-    unseen = truth_edges(fc, lambda r: r == "std::collections::HashSet::contains(^reggos_of_last_discover, arg2.1)", False)
-    somes = [(s, e) for s, e in ret_exprs(fc) if e[0] == "agg" and e[3] == "Some"]
+    FC = P.Norm(fc)
+    # captured: the id set of the presented cookie (a local) and the requested namespace ($2)
+    setl = [u for u in ups if u[0] == "local"]
+    nsi = [i for i, u in enumerate(ups) if u[0] == "arg" and u[1] == 2]
+    seti = [i for i, u in enumerate(ups) if u[0] == "local"]
+    ctx.ob("get", "the filter sees the cookie's id set and the requested namespace", len(ups) == 2 and len(setl) == 1 and len(nsi) == 1, fm[0].loc(), str([G.r(u) for u in ups]))
+    SETV = "^%d" % seti[0] if seti else "^?"
+    NSV = "^%d" % nsi[0] if nsi else "^?"
+    CONT = "std::collections::HashSet::contains(%s, $2.1)" % SETV
+    seen = P.truth_edges(fc, lambda e: FC.r(e) == CONT, True)
+    unseen = P.truth_edges(fc, lambda e: FC.r(e) == CONT, False)
+    somes = [(s, e) for s, e in P.ret_exprs(fc) if e[0] == "agg" and e[3] == "Some"]
     ctx.floor("get", "Some(id) results of the filter", somes, 1)
+    ns_none = P.outcome_edges(fc, lambda e: FC.r(e) in ("std::option::Option::as_ref(%s)" % NSV, NSV), False)
+    ns_eq = P.rel_edges(fc, lambda op, x, y: op == "Eq" and {FC.r(x), FC.r(y)} == {"$2.0.1", "std::option::Option::as_ref(%s)@+" % NSV})
     for s, e in somes:
-        ok = bool(unseen) and fc.must_pass_edges(s.bb, unseen)
-        ctx.ob("get", "ids already in the cookie are skipped", ok and render(e) == "std::option::Option::Some{0: arg2.1}", s.loc(), "Some(registration_id) only on the `!reggos_of_last_discover.contains(id)` edge")
-        nsok = False
-        for text, labels, _, c in fc.guards_on_all_paths(s.bb):
-            if text == "discr(std::option::Option::as_ref(^discover_namespace))" and set(labels) == {"None"}:
-                nsok = True
-            if text == "std::cmp::impls::eq(std::option::Option::as_ref(^discover_namespace)@Some.0, arg2.0.1)" and set(labels) == {"true"}:
-                nsok = True
+        ok = P.must_pass(fc, s.bb, unseen)
+        ctx.ob("get", "ids already in the cookie are skipped", ok and FC.r(e) == "std::option::Option::Some{0: $2.1}", s.loc(), "Some(registration_id) only on the `!set.contains(id)` edge")
+        nsok = fc.must_pass_edges(s.bb, set(ns_none) | set(ns_eq)) if (ns_none or ns_eq) else False
         ctx.ob("get", "a namespaced discover returns only that namespace", nsok, s.loc(), "Some(id) requires discover_namespace == None or == the registration's namespace")
     if seen:
-        got = lib.count_range(fc, [t for _, t in seen], fc.return_blocks(), [s.bb for s, _ in somes])
+        got = lib.count_range(fc, P.targets(seen), fc.return_blocks(), [s.bb for s, _ in somes])
         ctx.ob("get", "an id contained in the cookie is never returned", got == (0, 0), "%s:%d" % (fc.file, fc.line), "Some results on the contains edge: %s" % (got,))
     else:
-        ctx.ob("get", "an id contained in the cookie is never returned", False, "%s:%d" % (fc.file, fc.line), "no test of reggos_of_last_discover.contains(id)")
-    rl = [l for l, n in g_.names.items() if n == "reggos_of_last_discover"]
-    src = render(g_.init_expr(rl[0])) if len(rl) == 1 else ""
-    ctx.ob("get", "the id set is the one stored under the presented cookie", re.match(r"^std::option::Option::unwrap_or_default\(std::option::Option::cloned\(std::option::Option::and_then\(cookie, closure:[^\[]*\[self\.cookies\]\)\)\)$", src) is not None, msg=src[:200])
-    c1 = [c for c in prog.children(g_) if [render(x) for _, x in ret_exprs(c)] == ["hashlink::LruCache::get(^*self.cookies, cookie)"]]
-    ctx.ob("get", "the cookie lookup uses the presented cookie", len(c1) == 1, msg=str(len(c1)))
-    il = [l for l, n in g_.names.items() if n == "ids"]
-    ids = render(g_.init_expr(il[0])) if len(il) == 1 else "?"
-    ctx.ob("get", "at most `limit` ids per discover", re.match(r"^std::iter::Iterator::collect\(std::iter::Iterator::cloned\(std::iter::Iterator::take\(std::iter::Iterator::filter_map\(.*\), \(std::option::Option::unwrap_or\(limit, const:core::num::<impl u64>::MAX\) as usize\)\)\)\)$", ids) is not None, msg=ids[-120:])
-    ext = [s for s in g_.call_sites(r"Extend>::extend$") if render(g_.site_expr(s)) == "<std::collections::HashSet as std::iter::Extend>::extend(reggos_of_last_discover, %s)" % ids]
-    cins = [s for s in g_.call_sites(r"LruCache::insert$") if render(g_.site_expr(s)[2][0]) == "self.cookies"]
-    oks = [(s, e) for s, e in ret_exprs(g_) if e[0] == "agg" and e[3] == "Ok"]
+        ctx.ob("get", "an id contained in the cookie is never returned", False, "%s:%d" % (fc.file, fc.line), "no test of set.contains(id)")
+    SL = setl[0][1] if setl else None
+    src = G.r(g_.init_expr(SL)) if SL is not None else ""
+    ctx.ob("get", "the id set is the one stored under the presented cookie", src == "std::option::Option::unwrap_or_default(std::option::Option::cloned(std::option::Option::and_then($3, closure[%s])))" % COOK, msg=src[:200])
+    lk = [x for x in mir.walk(g_.init_expr(SL)) if x[0] == "closure"] if SL is not None else []
+    c1 = [P.Norm(prog.closure_body(g_, x[1])).r(y) for x in lk for _, y in P.ret_exprs(prog.closure_body(g_, x[1]))]
+    ctx.ob("get", "the cookie lookup uses the presented cookie", c1 == ["hashlink::LruCache::get(^0, $2)"], msg=str(c1))
+    # ids = collect(cloned(take(filter_map, limit)))
+    col = [s for s in g_.call_sites(r"Iterator::collect$") if any(y[0] == "call" and y[3] == fm[0].bb for y in mir.walk(g_.site_expr(s)))]
+    ids_e = g_.site_expr(col[0]) if col else ("unknown", "?")
+    ids = G.r(ids_e)
+    tk = [y for y in mir.walk(ids_e) if P.call_is(y, r"Iterator::take$")]
+    ctx.ob("get", "at most `limit` ids per discover", len(tk) == 1 and tk[0][2][0][0] == "call" and tk[0][2][0][3] == fm[0].bb and G.r(tk[0][2][1]) == "(std::option::Option::unwrap_or($4, 18446744073709551615) as usize)", msg=G.r(tk[0][2][1]) if tk else ids[-120:])
+    ext = [s for s in g_.call_sites(r"Extend>::extend$") if G.site(s) == "<std::collections::HashSet as std::iter::Extend>::extend(%%%s, %s)" % (SL, ids)]
+    cins = [s for s in g_.call_sites(r"LruCache::insert$") if G.r(g_.site_expr(s)[2][0]) == COOK]
+    oks = [(s, e) for s, e in P.ret_exprs(g_) if e[0] == "agg" and e[3] == "Ok"]
     ctx.floor("get", "Ok result", oks, 1, exact=True)
     for s, e in oks:
         ge, gi = lib.count_range(g_, [0], [s.bb], lib.bbs(ext)), lib.count_range(g_, [0], [s.bb], lib.bbs(cins))
         order = bool(ext) and bool(cins) and g_.dominates(ext[0].bb, cins[0].bb)
-        ctx.ob("get", "new cookie remembers old and new ids", ge == (1, 1) and gi == (1, 1) and order, ext[0].loc() if ext else s.loc(), "reggos_of_last_discover.extend(&ids) %s before cookies.insert %s" % (ge, gi))
-        r = render(e)
+        ctx.ob("get", "new cookie remembers old and new ids", ge == (1, 1) and gi == (1, 1) and order, ext[0].loc() if ext else s.loc(), "set.extend(&ids) %s before cookies.insert %s" % (ge, gi))
+        tup = dict(e[4])["0"]
+        parts = dict(tup[4]) if tup[0] == "agg" else {}
         for x in cins:
             a_ = g_.site_expr(x)[2]
-            nc = render(a_[1])
-            ctx.ob("get", "the stored set belongs to the returned cookie", render(a_[2]) == "reggos_of_last_discover" and nc.startswith("libp2p_rendezvous::<codec::Cookie as std::clone::Clone>::clone(") and
-                   r.endswith(", 1: %s}}" % nc[len("libp2p_rendezvous::<codec::Cookie as std::clone::Clone>::clone("):-1]), x.loc(), nc[:160])
-        ctx.ob("get", "the returned registrations are those of the returned ids", r.startswith("std::result::Result::Ok{0: tuple{0: std::iter::Iterator::map(<std::vec::Vec as std::iter::IntoIterator>::into_iter(%s), closure:" % ids), s.loc(), r[:80])
-    errs = [(s, e) for s, e in ret_exprs(g_) if e[0] == "agg" and e[3] == "Err"]
-    CN = "std::option::Option::and_then(std::option::Option::as_ref(cookie), closure:"
-    mism = truth_edges(g_, lambda r: r.startswith("std::cmp::impls::ne(std::option::Option::as_ref(discover_namespace)@Some.0, " + CN), True)
-    got = lib.count_range(g_, [t for _, t in mism], grets, [s.bb for s, _ in errs]) if mism else None
-    ctx.ob("get", "a cookie of another namespace is refused", got == (1, 1) and not any(x.bb in g_.reachable([t for _, t in mism]) for x in fm + cins), errs[0][0].loc() if errs else "", "Err on the namespace != cookie namespace edge: %s" % (got,))
+            nc = a_[1][2][0] if P.call_is(a_[1], r"Clone>::clone$|Clone::clone$") else a_[1]
+            ctx.ob("get", "the stored set belongs to the returned cookie", G.r(a_[2]) == "%%%s" % SL and "1" in parts and G.r(parts["1"]) == G.r(nc) and
+                   G.r(nc) == "std::option::Option::unwrap_or_else(std::option::Option::map($2, fn:libp2p_rendezvous::codec::Cookie::for_namespace), fn:libp2p_rendezvous::codec::Cookie::for_all_namespaces)", x.loc(), G.r(nc)[:160])
+        first = G.r(parts.get("0", ("unknown", "?")))
+        ctx.ob("get", "the returned registrations are those of the returned ids", first.startswith("std::iter::Iterator::map(<std::vec::Vec as std::iter::IntoIterator>::into_iter(%s), closure[" % ids), s.loc(), first[:80])
+    errs = [(s, e) for s, e in P.ret_exprs(g_) if e[0] == "agg" and e[3] == "Err"]
+    CNS = "std::option::Option::and_then(std::option::Option::as_ref($3), closure[])@+"
+    mism = P.rel_edges(g_, lambda op, x, y: op == "Ne" and {G.r(x), G.r(y)} == {CNS, "std::option::Option::as_ref($2)@+"})
+    got = lib.count_range(g_, P.targets(mism), grets, [s.bb for s, _ in errs]) if mism else None
+    ctx.ob("get", "a cookie of another namespace is refused", got == (1, 1) and not any(x.bb in g_.reachable(P.targets(mism)) for x in fm + cins), errs[0][0].loc() if errs else "", "Err on the namespace != cookie namespace edge: %s" % (got,))
     for s, e in errs:
         got = lib.count_range(g_, [0], [s.bb], lib.bbs(cins))
         ctx.ob("get", "a refused discover stores no cookie", got == (0, 0), s.loc(), str(got))
-    # ================================================================= handle_request: discover serves what get returned
+    # ================================================================= handle_request
     hr = ctx.body(RZ, r"^libp2p_rendezvous::server::handle_request$")
-    ga = hr.call_sites(R + r"get$")
-    ad = hr.call_sites(R + r"add$")
-    rmv = hr.call_sites(R + r"remove$")
+    ga, ad, rmv = hr.call_sites(R + r"get$"), hr.call_sites(R + r"add$"), hr.call_sites(R + r"remove$")
     ctx.ob("request", "register / unregister / discover go through Registrations::{add, remove, get}", len(ga) == 1 and len(ad) == 1 and len(rmv) == 1, "%s:%d" % (hr.file, hr.line), "get %d add %d remove %d" % (len(ga), len(ad), len(rmv)))
-    callers = {n: sorted({s.body.npath for s in prog.callers(RZ, R + n + "$")}) for n in ("add", "remove", "get")}
+    callers = {n_: sorted({s.body.npath for s in prog.callers(RZ, R + n_ + "$")}) for n_ in ("add", "remove", "get")}
     ctx.ob("request", "the registration store is changed only by handle_request", all(v == [hr.npath] for v in callers.values()), msg=str(callers))
     who = {}
     for b in prog.bodies(RZ):
         if not b.npath.startswith("libp2p_rendezvous::server::"):
             continue
-        for fld in ("registrations_for_peer", "registrations"):
+        for fld in (F_IDS, F_REGS):
             for s in lib.field_mut_calls(b, fld):
                 who.setdefault(fld, set()).add(b.npath)
-    allowed = {"libp2p_rendezvous::server::Registrations::" + n for n in ("add", "remove", "poll")}
-    ctx.ob("request", "both maps are mutated only by add / remove / poll", all(v <= allowed for v in who.values()) and set(who) == {"registrations_for_peer", "registrations"}, msg=str({k: sorted(v) for k, v in who.items()}))
+    allowed = {"libp2p_rendezvous::server::Registrations::" + n_ for n_ in ("add", "remove", "poll")}
+    ctx.ob("request", "both maps are mutated only by add / remove / poll", all(v <= allowed for v in who.values()) and set(who) == {F_IDS, F_REGS}, msg=str({k: sorted(v) for k, v in who.items()}))
     # ================================================================= Cookie wire encoding
+    K_ID = P.field_by_type(prog, RZ, CADT, r"^u64$")
+    K_NS = P.field_by_type(prog, RZ, CADT, r"Option<")
     enc = ctx.body(RZ, r"^libp2p_rendezvous::codec::Cookie::into_wire_encoding$")
     dec = ctx.body(RZ, r"^libp2p_rendezvous::codec::Cookie::from_wire_encoding$")
-    e_calls = [render(enc.site_expr(s)) for s in enc.call_sites(r"extend_from_slice$")]
-    ok_e = len(e_calls) == 2 and e_calls[0] == "std::vec::Vec::extend_from_slice(buffer, core::num::to_be_bytes(self.id))" and "std::string::String::as_bytes(" in e_calls[1] and "self.namespace" in e_calls[1] and \
-        enc.dominates(enc.call_sites(r"extend_from_slice$")[0].bb, enc.call_sites(r"extend_from_slice$")[1].bb)
-    d_txt = " ".join(render(dec.site_expr(s)) for s in dec.call_sites())
-    ok_d = "core::num::from_be_bytes(" in d_txt and "std::vec::Vec::split_off(bytes, 8)" in d_txt
-    ctx.ob("cookie", "id bytes: encode and decode agree", ok_e and ok_d, "%s:%d" % (enc.file, enc.line), "encode: %s | decode uses from_be_bytes + split_off(8): %s" % ([c[-70:] for c in e_calls], ok_d))
-    oks = [(s, e) for s, e in ret_exprs(dec) if e[0] == "agg" and e[3] == "Ok"]
-    for s, e in oks:
-        ctx.guarded("cookie", "decoding needs at least the 8 id bytes", s, lambda c, r, l: (l == "false" and r == "Lt(std::vec::Vec::len(bytes), 8)") or (l == "true" and r == "Ge(std::vec::Vec::len(bytes), 8)"), "bytes.len() >= 8")
-        r = render(e)
-        ctx.ob("cookie", "decoded cookie = (id from the first 8 bytes, namespace from the rest)", "id: core::num::from_be_bytes(" in r and ", namespace: " in r, s.loc(), r[:160])
+    EN, DE = P.Norm(enc), P.Norm(dec)
+    exts = enc.call_sites(r"extend_from_slice$")
+    e_args = [EN.r(enc.site_expr(s)[2][1]) for s in exts]
+    ok_e = len(exts) == 2 and e_args[0] == "core::num::to_be_bytes(self.%s)" % K_ID and "self.%s" % K_NS in e_args[1] and "as_bytes(" in e_args[1] and enc.dominates(exts[0].bb, exts[1].bb)
     so = dec.call_sites(r"Vec::split_off$")
-    for s in oks[:1]:
-        ok = bool(so) and dec.dominates(so[0].bb, s[0].bb)
-        ctx.ob("cookie", "the namespace is split off before the id is read", ok, so[0].loc() if so else "", "")
+    IDLEN = P.const_val(dec.site_expr(so[0])[2][1]) if so else None
+    oks = [(s, e) for s, e in P.ret_exprs(dec) if e[0] == "agg" and e[3] == "Ok"]
+    idsrc = ""
+    for s, e in oks:
+        ck_ = dict(e[4])["0"]
+        f = dict(ck_[4]) if ck_[0] == "agg" else {}
+        idsrc = DE.r(f.get(K_ID, ("unknown", "?")))
+    ok_d = IDLEN == 8 and len(so) == 1 and DE.r(dec.site_expr(so[0])[2][0]) == "$1" and re.match(r"^core::num::from_be_bytes\(.*\$1.*\)$", idsrc) is not None
+    ctx.ob("cookie", "id bytes: encode and decode agree", ok_e and ok_d, "%s:%d" % (enc.file, enc.line), "encode: %s | decode: split_off(%s), id = %s" % ([c[-70:] for c in e_args], IDLEN, idsrc[:80]))
+    for s, e in oks:
+        ge8 = P.rel_edges(dec, lambda op, x, y: op == "Le" and P.const_val(x) == IDLEN and DE.r(y) == "std::vec::Vec::len($1)")
+        ctx.ob("cookie", "decoding needs at least the id bytes", IDLEN is not None and P.must_pass(dec, s.bb, ge8), s.loc(), "Ok only with bytes.len() >= %s" % IDLEN)
+        ck_ = dict(e[4])["0"]
+        f = dict(ck_[4]) if ck_[0] == "agg" else {}
+        ns = f.get(K_NS)
+        ns_ok = False
+        if ns is not None and ns[0] == "local":
+            srcs = [DE.r(dec.site_expr(mir.Site(dec, d[1], d[2]))) for d in dec.defs.get(ns[1], [])]
+            ns_ok = len(srcs) == 2 and any(x == "std::option::Option::None{}" for x in srcs) and any("std::vec::Vec::split_off($1, %s)" % IDLEN in x for x in srcs)
+        ctx.ob("cookie", "decoded cookie = (id from the first bytes, namespace from the rest)", ns_ok, s.loc(), idsrc[:100])
+        ctx.ob("cookie", "the namespace is split off before the id is read", bool(so) and dec.dominates(so[0].bb, s.bb), so[0].loc() if so else "", "")
     for fn in ("for_namespace", "for_all_namespaces"):
         b = ctx.body(RZ, r"^libp2p_rendezvous::codec::Cookie::%s$" % fn)
-        r = [render(x) for _, x in ret_exprs(b)]
-        ctx.ob("cookie", "%s creates a cookie with a random id" % fn, len(r) == 1 and r[0].startswith("libp2p_rendezvous::codec::Cookie::Cookie{id: rand::random()") and
-               (("namespace: std::option::Option::Some{0: namespace}" in r[0]) if fn == "for_namespace" else ("namespace: std::option::Option::None{}" in r[0])), "%s:%d" % (b.file, b.line), r[0][:140] if r else "")
+        BN = P.Norm(b)
+        ags = [dict(x[4]) for _, e in P.ret_exprs(b) for x in mir.walk(e) if x[0] == "agg" and x[1] == "adt" and strip_generics(x[2]) == "libp2p_rendezvous::codec::Cookie"]
+        ok = len(ags) == 1 and BN.r(ags[0][K_ID]) == "rand::random()" and BN.r(ags[0][K_NS]) == ("std::option::Option::Some{0: $1}" if fn == "for_namespace" else "std::option::Option::None{}")
+        ctx.ob("cookie", "%s creates a cookie with a random id" % fn, ok, "%s:%d" % (b.file, b.line), str({k: BN.r(v) for k, v in ags[0].items()}) if ags else "")
